@@ -6,4 +6,4 @@ Extraction "c13_model.ml"
   step run_ops apply_op storage_write storage_write_fallback crash_at render_file rcompact sortkeys
   wallet_to_dict save_dict to_json aes_encrypt aes_decrypt better_aes_encrypt better_aes_decrypt
   pack unpack is_locked is_encrypted pref_on default_wallet fs_set temp_path
-  account_encrypt account_decrypt account_to_dict wallet_of_dict unlock lock channel_view.
+  account_encrypt account_decrypt account_to_dict wallet_of_dict unlock lock channel_view merge_payload two_writers.
